@@ -182,6 +182,25 @@ static void cb_drop(cbuf_t *c) {   /* scribble, then release: the table must not
     hm_free(c->base); c->base = c->p = NULL;
 }
 
+/* a second, unrelated table of the same type used in between (every other random history): puts, removes, lookups, a slow walk and searches over
+ * the SAME key bytes. Nothing a table keeps may be shared with another instance: whatever the library remembers across calls (a cached node, a
+ * travel id, a scratch buffer) belongs to one table. The decoy's own results are not judged; the main table's oracles see the damage. */
+static qtreetbl_t *DECOY; static qtreetbl_obj_t DECOY_CUR;
+static void decoy_new(void) { DECOY = qtreetbl(0); memset(&DECOY_CUR, 0, sizeof DECOY_CUR); if (DECOY) vf_count("histories_with_a_second_table_used_in_between", 1); }
+static void decoy_free(void) { if (DECOY) { DECOY->free(DECOY); DECOY = NULL; } }
+static void decoy_step(void) {
+    if (!DECOY || NU == 0) return;
+    int e = errno;
+    ukey_t *k = &UK[rng_below(&R, (uint32_t)NU)]; uint32_t c = rng_below(&R, 6); unsigned char v[24]; size_t vl = 1 + rng_below(&R, sizeof v); memset(v, 0xD0 + (int)c, vl);
+    /* a walk is only continued while the decoy itself is not modified (the documented contract of getnext) */
+    if (c == 0 || c == 1) { DECOY->putobj(DECOY, k->k, k->kl, v, vl); memset(&DECOY_CUR, 0, sizeof DECOY_CUR); }
+    else if (c == 2) { DECOY->removeobj(DECOY, k->k, k->kl); memset(&DECOY_CUR, 0, sizeof DECOY_CUR); }
+    else if (c == 3) { size_t sz; void *d = DECOY->getobj(DECOY, k->k, k->kl, &sz, true); free(d); }
+    else if (c == 4) { if (!DECOY->getnext(DECOY, &DECOY_CUR, false)) memset(&DECOY_CUR, 0, sizeof DECOY_CUR); }
+    else { qtreetbl_obj_t o = DECOY->find_nearest(DECOY, k->k, k->kl, false); (void)o; memset(&DECOY_CUR, 0, sizeof DECOY_CUR); }
+    vf_count("operations_on_the_second_table", 1);
+    errno = e;
+}
 static int TREE_OPT;      /* C15 phase: alternate the thread-safe flag so that a lock left held by a failed call is observable */
 static void table_new(void) {
     ledger_mark = vf_ledger_mark();
@@ -750,9 +769,11 @@ static void history(long caseno) {
     int every = NU <= 64 ? 1 : 16;
     /* C02: deletion-heavy phases on large tables */
     bool delheavy = (P == 2) && rng_chance(&R, 1, 3);
+    if ((caseno & 1) && P != 15) decoy_new();
     for (int op = 0; op < nops && !abandon; op++) {
         uint32_t c = rng_below(&R, 100);
         bool mut = false;
+        if (DECOY && rng_chance(&R, 1, 3)) decoy_step();
         if (delheavy) {
             int phase = (op * 6 / nops) & 1;     /* fill, drain, fill, drain ... */
             if (phase == 0) { op_put(pick_key()); mut = true; }
@@ -805,6 +826,7 @@ static void history(long caseno) {
     vf_max("max_keys_in_table", MN);
     if (!abandon) vf_count("histories_completed", 1); else vf_count("histories_abandoned", 1);
     if (caseno < 3 && !abandon) vf_sample("random history #%ld: U=%d ordering=%s keyclass=%s ops=%d final_keys=%d", caseno, NU, ORD[ORDI].name, KCLS[kcls], nops, MN);
+    decoy_free();
     table_free();
     if (P == 11) vf_san_poll();
     m_clear();
@@ -1003,7 +1025,7 @@ static void phase_oom(int U) {
 
 int main(int argc, char **argv) {
     vf_init(argc, argv, "h_tree");
-    vf_errno_entry = 1; vf_op_budget_ms = 60000;   /* stale errno on entry of every logged operation; a call that never returns is hang:operation */
+    vf_errno_entry = 1; vf_op_budget_ms = 10000;   /* stale errno on entry of every logged operation; a call that never returns is hang:operation */
     vf_errno_noise_every = 5;   /* every fifth case: successful allocations leave errno = ENOMEM behind (glibc does when brk fails) */
     P = atoi(VF.prop + 1);
     if (P != 1 && P != 2 && P != 3 && P != 4 && P != 11 && P != 15) { fprintf(stderr, "h_tree: unsupported property %s\n", VF.prop); return 2; }
